@@ -7,7 +7,7 @@ ids = ["C%02d" % i for i in range(1, 21)]
 checks, na = [], []
 for pid in ids:
     c = props.get(pid)
-    if not c or not c.get("claimed", True):
+    if not c or not c.get("ready", False):
         na.append({"property_id": pid, "reason": (c or {}).get("na_reason", "no check registered yet: model, proofs and correspondence for this property are still being built (see DESIGN.md section 7); proof in Lean applies in principle")})
         continue
     checks.append({
